@@ -41,7 +41,7 @@ CLAIMED = {
              "unbounded length) to forward signals in place and exactly the travelers their documented meaning keeps, in order, to close "
              "their output once, and for limit/skip/range to emit the closed-form number of rows (min(N,n), max(0,N-n), range arithmetic); "
              "traveler copy-on-step (AddCurrent, AddMark) is proved pointwise (marks, path, current, signal). Lookup/adjacency steps, "
-             "render/path/unwind/distinct/select and the pipeline wiring are not under contract. Typing: StatementProcessor is proved against the "
+             "render/path/unwind/distinct/select and the pipeline wiring are not under contract. The lookup steps V(), V(ids), E(), E(ids) are proved to forward signals in place and to emit, per input traveler and in order, one traveler per listed element resp. per requested id the graph has, carrying that id (the graph's answers are named by an assumed GraphInterface contract); the index lookup and the adjacency steps are not. Typing: StatementProcessor is proved against the "
              "table tnext and DefaultCompiler.Compile (no optimizers, no options) to return the fold of that table over the statements or an error.",
         ref="§5 C01",
         note=TRUST + " Trusted composition principle (Kahn determinacy, DESIGN §4.3): a network of such sequential processes over FIFO channels "
@@ -194,9 +194,10 @@ CLAIMED = {
         level="other",
         text="Partial: the edge-id scheme of a mapped graph - GenID builds <from prefix><row id>-<label>-<to prefix><row id> and "
              "ParseEdge is proved to return exactly the three parts back for all dash-free parts; that ParseEdge accepts every id GenID "
-             "can build is a known finding (row ids containing '-'). Not decided: everything that involves the external table "
-             "servers (one vertex per row, one edge per link row, equality of traversals with the materialised graph, refusal of "
-             "writes): the gRPC table clients are outside the model.",
+             "can build is a known finding (row ids containing '-'). Write calls are refused: AddVertex, AddEdge, BulkAdd, DelVertex, DelEdge, "
+             "AddVertexIndex and DeleteVertexIndex of the mapped graph are proved to return an error, write no state and call no driver. "
+             "Not decided: everything that involves the external table servers (one vertex per row, one edge per link row, equality of "
+             "traversals with the materialised graph): the gRPC table clients are outside the model.",
         ref="§5 C15",
         note=TRUST + " Assumed: strings.Split on '-' of a three-part dash-free concatenation (spec/dash.smt2, validated by validate_axioms).",
         technique="contract-based deductive verification: WP/VC generation over go/ssa + SMT (z3/cvc5)"),
